@@ -58,6 +58,9 @@
 //	                   (client) client ad says Authentication="NEVER" and the exchange is skipped even if the server says YES
 //	AnswerEncNo        (server) Encryption="NO" in the server ad although key and cipher are still advertised; peer does not encrypt;
 //	                   (client) Encryption="NEVER" in the client ad; peer does not encrypt
+//	AnswerAuthOmitted / AnswerAuthLowercase / AnswerAuthBool / AnswerAuthGarbage, AnswerEnc... (both)
+//	                   same behaviour as AnswerAuthNo / AnswerEncNo, but the attribute is left out, written
+//	                   "no" ("never" in a client ad), sent as the boolean false, or set to "MAYBE"
 //	OmitECDH           (both)   no ECDHPublicKey attribute; peer does not encrypt
 //	TruncateECDH       (both)   ECDHPublicKey cut to half its base64 text; peer does not encrypt
 //	RandomECDH         (both)   ECDHPublicKey = 0x04 || 64 random bytes (not a curve point); peer does not encrypt
@@ -112,28 +115,41 @@ const DCAuthenticate = 60010
 type Dev string
 
 const (
-	AnswerAuthNo       Dev = "AnswerAuthNo"
-	AnswerEncNo        Dev = "AnswerEncNo"
-	OmitECDH           Dev = "OmitECDH"
-	TruncateECDH       Dev = "TruncateECDH"
-	RandomECDH         Dev = "RandomECDH"
-	ForeignECDH        Dev = "ForeignECDH"
-	NoCommonCipher     Dev = "NoCommonCipher"
-	SelectUnofferedBit Dev = "SelectUnofferedBit"
-	SelectSeveralBits  Dev = "SelectSeveralBits"
-	SelectZero         Dev = "SelectZero"
-	ReportDenied       Dev = "ReportDenied"
-	PostAuthDenied     Dev = "PostAuthDenied"
-	PostAuthInClear    Dev = "PostAuthInClear"
-	SkipKeyExchangeMsg Dev = "SkipKeyExchangeMsg"
-	ResumeKeyless      Dev = "ResumeKeyless"
-	ReplyWithoutKey    Dev = "ReplyWithoutKey"
-	NoResumeReturnCode Dev = "NoResumeReturnCode"
+	AnswerAuthNo Dev = "AnswerAuthNo"
+	AnswerEncNo  Dev = "AnswerEncNo"
+	// Forms of the negative answer other than the literal "NO" ("NEVER" in a client
+	// ad). Each implies the behaviour of AnswerAuthNo / AnswerEncNo; only the
+	// rendering of the attribute differs.
+	AnswerAuthOmitted   Dev = "AnswerAuthOmitted"   // attribute left out
+	AnswerAuthLowercase Dev = "AnswerAuthLowercase" // "no" / "never"
+	AnswerAuthBool      Dev = "AnswerAuthBool"      // boolean false instead of a string
+	AnswerAuthGarbage   Dev = "AnswerAuthGarbage"   // "MAYBE"
+	AnswerEncOmitted    Dev = "AnswerEncOmitted"
+	AnswerEncLowercase  Dev = "AnswerEncLowercase"
+	AnswerEncBool       Dev = "AnswerEncBool"
+	AnswerEncGarbage    Dev = "AnswerEncGarbage"
+	OmitECDH            Dev = "OmitECDH"
+	TruncateECDH        Dev = "TruncateECDH"
+	RandomECDH          Dev = "RandomECDH"
+	ForeignECDH         Dev = "ForeignECDH"
+	NoCommonCipher      Dev = "NoCommonCipher"
+	SelectUnofferedBit  Dev = "SelectUnofferedBit"
+	SelectSeveralBits   Dev = "SelectSeveralBits"
+	SelectZero          Dev = "SelectZero"
+	ReportDenied        Dev = "ReportDenied"
+	PostAuthDenied      Dev = "PostAuthDenied"
+	PostAuthInClear     Dev = "PostAuthInClear"
+	SkipKeyExchangeMsg  Dev = "SkipKeyExchangeMsg"
+	ResumeKeyless       Dev = "ResumeKeyless"
+	ReplyWithoutKey     Dev = "ReplyWithoutKey"
+	NoResumeReturnCode  Dev = "NoResumeReturnCode"
 )
 
 // Catalogue lists every switch with the peer roles it applies to.
 var Catalogue = map[Dev][]Role{
 	AnswerAuthNo: {Client, Server}, AnswerEncNo: {Client, Server},
+	AnswerAuthOmitted: {Client, Server}, AnswerAuthLowercase: {Client, Server}, AnswerAuthBool: {Client, Server}, AnswerAuthGarbage: {Client, Server},
+	AnswerEncOmitted: {Client, Server}, AnswerEncLowercase: {Client, Server}, AnswerEncBool: {Client, Server}, AnswerEncGarbage: {Client, Server},
 	OmitECDH: {Client, Server}, TruncateECDH: {Client, Server}, RandomECDH: {Client, Server},
 	ForeignECDH: {Client, Server}, NoCommonCipher: {Client, Server},
 	SelectUnofferedBit: {Client, Server}, SelectSeveralBits: {Client, Server}, SelectZero: {Client, Server},
@@ -351,11 +367,36 @@ func New(conn net.Conn, cfg Config) *Peer {
 
 func (p *Peer) dev(d Dev) bool { return p.Cfg.Devs[d] }
 
+// authNo / encNo: some form of the negative answer is switched on.
+func (p *Peer) authNo() bool {
+	return p.dev(AnswerAuthNo) || p.dev(AnswerAuthOmitted) || p.dev(AnswerAuthLowercase) || p.dev(AnswerAuthBool) || p.dev(AnswerAuthGarbage)
+}
+func (p *Peer) encNo() bool {
+	return p.dev(AnswerEncNo) || p.dev(AnswerEncOmitted) || p.dev(AnswerEncLowercase) || p.dev(AnswerEncBool) || p.dev(AnswerEncGarbage)
+}
+
+// renderAnswer writes attribute name with the plain value, or in the deviating
+// form selected by the switches (omitted / lower case / boolean / garbage).
+func (p *Peer) renderAnswer(ad *Ad, name, plain string, omitted, lower, boolean, garbage Dev) {
+	switch {
+	case p.dev(omitted):
+		ad.Delete(name)
+	case p.dev(lower):
+		ad.SetStr(name, strings.ToLower(plain))
+	case p.dev(boolean):
+		ad.SetBool(name, false)
+	case p.dev(garbage):
+		ad.SetStr(name, "MAYBE")
+	default:
+		ad.SetStr(name, plain)
+	}
+}
+
 func (p *Peer) logf(f string, a ...any) { p.Obs.Log = append(p.Obs.Log, fmt.Sprintf(f, a...)) }
 
 // noEnc: some switch makes this peer behave as a non-encrypting endpoint.
 func (p *Peer) noEnc() bool {
-	return p.dev(AnswerEncNo) || p.dev(OmitECDH) || p.dev(TruncateECDH) || p.dev(RandomECDH) ||
+	return p.encNo() || p.dev(OmitECDH) || p.dev(TruncateECDH) || p.dev(RandomECDH) ||
 		p.dev(ForeignECDH) || p.dev(NoCommonCipher) || p.dev(ResumeKeyless) || p.dev(ReplyWithoutKey)
 }
 
@@ -687,11 +728,11 @@ func (p *Peer) sendServerAd() error {
 	if p.dev(ReportDenied) {
 		deny = "denied by script"
 	}
-	if p.dev(AnswerAuthNo) {
+	if p.authNo() {
 		p.doAuth = false
 	}
 	encAnswer := p.wantEnc
-	if p.dev(AnswerEncNo) {
+	if p.encNo() {
 		encAnswer = false
 	}
 	var ad Ad
@@ -699,8 +740,8 @@ func (p *Peer) sendServerAd() error {
 	ad.SetStr("CryptoMethods", p.commonCipher)
 	ad.SetStr("AuthMethodsList", strings.Join(p.Cfg.Methods, ","))
 	ad.SetStr("CryptoMethodsList", strings.Join(p.ciphers(), ","))
-	ad.SetStr("Authentication", yn(p.doAuth))
-	ad.SetStr("Encryption", yn(encAnswer))
+	p.renderAnswer(&ad, "Authentication", yn(p.doAuth), AnswerAuthOmitted, AnswerAuthLowercase, AnswerAuthBool, AnswerAuthGarbage)
+	p.renderAnswer(&ad, "Encryption", yn(encAnswer), AnswerEncOmitted, AnswerEncLowercase, AnswerEncBool, AnswerEncGarbage)
 	ad.SetStr("Integrity", yn(encAnswer))
 	ad.SetStr("RemoteVersion", "$CondorVersion: 25.4.0 2025-10-31 BuildID: 1 PackageID: verif-peer $")
 	ad.SetInt("SessionDuration", int64(p.Cfg.Duration))
@@ -980,14 +1021,14 @@ func (p *Peer) sendHello() error {
 	ad.SetStr("AuthMethods", strings.Join(p.Cfg.Methods, ","))
 	ad.SetStr("CryptoMethods", strings.Join(p.ciphers(), ","))
 	auth, enc := p.Cfg.AuthLevel, p.Cfg.EncLevel
-	if p.dev(AnswerAuthNo) {
+	if p.authNo() {
 		auth = "NEVER"
 	}
-	if p.dev(AnswerEncNo) {
+	if p.encNo() {
 		enc = "NEVER"
 	}
-	ad.SetStr("Authentication", auth)
-	ad.SetStr("Encryption", enc)
+	p.renderAnswer(&ad, "Authentication", auth, AnswerAuthOmitted, AnswerAuthLowercase, AnswerAuthBool, AnswerAuthGarbage)
+	p.renderAnswer(&ad, "Encryption", enc, AnswerEncOmitted, AnswerEncLowercase, AnswerEncBool, AnswerEncGarbage)
 	ad.SetStr("Integrity", enc)
 	ad.SetInt("Command", int64(p.Cfg.Command))
 	ad.SetStr("RemoteVersion", "$CondorVersion: 25.4.0 2025-10-31 BuildID: 1 PackageID: verif-peer $")
@@ -1023,7 +1064,7 @@ func (p *Peer) recvServerAd() error {
 	}
 	p.Obs.AnswerAuth, _ = ad.Str("Authentication")
 	p.Obs.AnswerEnc, _ = ad.Str("Encryption")
-	p.doAuth = p.Obs.AnswerAuth == "YES" && !p.dev(AnswerAuthNo)
+	p.doAuth = p.Obs.AnswerAuth == "YES" && !p.authNo()
 	p.wantEnc = p.Obs.AnswerEnc == "YES"
 	list, _ := ad.Str("AuthMethodsList")
 	if list == "" {
